@@ -1,5 +1,10 @@
 # property id -> claim text (filled as checks are admitted; everything else is listed under NA with the reason)
 CLAIMS = {
+ 'C01': {'technique': 'static analysis: symbolic byte-count evaluation (abstract interpretation of the serialisers over the resolved AST into polynomials), reader/writer shape comparison, switch-table agreement, sticky-status path rule',
+         'text': 'Decides the size/shape half of C01 for every constructible Message at once: bytes written by Flatten equal FlattenedSize as symbolic normal forms for all 14 concrete array classes, all 12 flattenable '
+                 'single-item type codes and Message/String/ByteBuffer/Point/Rect; each reader consumes the wire shape its writer produces; single-item and array codec of a type agree; the type-code tables agree; '
+                 'Unflatten implementations consult the sticky status. Bit-identity of values, field order and checksum/equality invariance are not decided.',
+         'note': 'Widths of the DataFlattener/DataUnflattener primitives are a table in msa/effect.py; constructs outside the evaluator\'s fragment give exit 2, never a verdict.'},
  'C15': {'technique': 'static analysis: extraction and comparison of the special-character tables from the resolved AST (switch cases, position-0 comparisons, token predicate), escape-branch coverage check',
          'text': 'Decides two necessary conditions of C15 for every pattern/string at once: every character the translator or the regex engine treats specially is reported by IsRegexToken in the matching '
                  'position class (so escaping neutralises it and the uniqueness test sees it), and the translator never turns backslash+c into a regex operator for the characters where the dialect defines one. '
@@ -75,6 +80,6 @@ CLAIMS = {
          'note': 'Assumes const methods with by-value/const-ref parameters do not change what loop tests read; logging and destructor hubs are cut from the recursion graph.'},
 }
 _PENDING = 'check under construction in this session (see DESIGN.md section 4); not claimed until its rule is admitted'
-NA = {pid: _PENDING for pid in ['C01','C03','C08','C14','C17']}
+NA = {pid: _PENDING for pid in ['C03','C08','C14','C17']}
 NA['C09'] = ('refinement of an ideal ordered map over operation histories with live iterators: its mechanisms are co-located with the mutations they protect inside single template functions; '
              'no sound structural necessary condition was found that is not either compiler-enforced or a frozen-fragment match (DESIGN.md section 4, C09)')
